@@ -15,6 +15,9 @@ from vlib.cosched.sched import Abort
 
 ENDS = ["shutdown:outside", "shutdown:payload", "sigint", "fail:asyncio", "fail:trio",
         "fail:threading"]
+#: failures that leave accept() as something else than RuntimeError
+BASE_ENDS = ["fail:threading:SystemExit", "fail:asyncio:SystemExit", "fail:trio:UserBaseError",
+             "fail:threading:GeneratorExit"]
 POPULATIONS = ["none", "sleepers", "blocked", "submitter", "shielded"]
 ACCEPT_DELAY = 1.0
 
@@ -66,15 +69,18 @@ class Scenario:
 
         def shutdown_payload():
             runtime.running.wait()
-            env.sleep(stop_at)
+            if stop_at:
+                env.sleep(stop_at)
             end_action()
 
         if end == "shutdown:payload":
             runtime.adopt(shutdown_payload, flavour=K.FLAVOURS["threading"])
         elif end.startswith("fail:"):
-            kit.submit({"id": tag + "-fail", "flavour": end[5:],
-                        "steps": [("sleep", stop_at), ("log", "end-call"),
-                                  ("raise", "LookupError")]})
+            parts = end.split(":")
+            kit.submit({"id": tag + "-fail", "flavour": parts[1],
+                        "steps": ([("sleep", stop_at)] if stop_at else [])
+                        + [("log", "end-call"),
+                           ("raise", parts[2] if len(parts) > 2 else "LookupError")]})
         elif end == "sigint":
             env.sigint(lambda s: runtime.running.peek(), deadline=env.now + stop_at + 0.01,
                        cost=phase.get("sigint_cost", 1), name="~sigint%d" % index)
@@ -82,7 +88,8 @@ class Scenario:
         def driver():
             runtime.running.wait()
             env.log("running-seen", phase=index)
-            env.sleep(stop_at)
+            if stop_at:
+                env.sleep(stop_at)
             if population == "submitter":
                 kit.submit({"id": tag + "-late", "flavour": phase.get("late_flavour", "trio"),
                             "steps": [("forever", 0.4)]})
@@ -254,6 +261,9 @@ def scenario_params(tier):
         if population == "submitter" and tier == "thorough":
             for flavour in ("asyncio", "threading"):
                 out.append({"phases": [dict(phase, late_flavour=flavour)]})
+    for end, population in itertools.product(BASE_ENDS, ["none", "sleepers"]):
+        out.append({"phases": [{"end": end, "thread": "main", "population": population,
+                                "stop_at": 0.5}]})
     # histories of two runners (plus the final one)
     for index, (end_a, end_b) in enumerate(itertools.product(ENDS, ENDS)):
         thread_a = "second" if index % 2 and end_a != "sigint" else "main"
@@ -275,7 +285,14 @@ def run(ctx):
                      "time_jump_cost": None if ctx.quick else 1},
         "budget": 3000 if ctx.quick else 30000,
     } for params in scenario_params(ctx.tier)]
-    if not ctx.quick:
+    if ctx.quick:
+        # the shutdown-right-after-running window only exists between two source lines
+        specs += H.line_variants(
+            specs, lambda p: len(p["phases"]) == 1 and p["phases"][0]["stop_at"] == 0.0
+            and p["phases"][0]["population"] == "none" and not p["phases"][0]["concurrent"]
+            and p["phases"][0]["end"].startswith("shutdown")
+            and p["phases"][0]["thread"] == "main")
+    else:
         specs += H.line_variants(
             specs, lambda p: len(p["phases"]) == 1 and p["phases"][0]["stop_at"] in (0.0, 0.05)
             and p["phases"][0]["population"] in ("none", "submitter"))
